@@ -10,6 +10,7 @@ import random
 import warnings
 
 import numpy as np
+import scipy.signal as sg
 
 from sim import core, seams, common
 from sim.core import Violation
@@ -29,7 +30,10 @@ COMPONENTS_REAL = ["opticomlib.devices.GET_EYE", "opticomlib.devices.LPF (band-l
 COMPONENTS_STUB = ["numpy global RandomState seeded by the simulator before every call (layer A)",
                    "opticomlib.utils.tm (SimClock)"]
 ASSUMPTIONS = [
-    "bands quoted verbatim from the statement; sigma is the standard deviation of the added noise (fraction of b-a)",
+    "bands quoted verbatim from the statement; sigma is the standard deviation of the added noise (fraction of b-a); "
+    "the LOWER sigma bound uses min(sigma, spread of the injected noise realised on the estimator's own window "
+    "samples): at the 64-slot minimum only ~15 independent noise samples per level enter the estimate, and a "
+    "thorough run met a realisation (1 in ~40 000) whose local spread was just below sigma/2",
     "'midway within one resampled step' = |t_opt - (t_left+t_right)/2| <= 1/sps_resamp (+1e-9)",
     "equivariance tolerance 1e-6 relative to alpha*(b-a); beta is kept within +-10*alpha*(b-a) so that float "
     "cancellation stays far below that tolerance",
@@ -166,10 +170,19 @@ class Bench:
             if abs(v["mu0"] - a) > 0.08 * swing or abs(v["mu1"] - b) > 0.08 * swing:
                 raise Violation("C17/level", f"{w}: mu0={v['mu0']:.6g} mu1={v['mu1']:.6g}, must be within 8% of b-a of "
                                              f"({a:.6g}, {b:.6g})", f"level/{self._ampclass(swing)}")
-            for f in ("s0", "s1"):
-                if not (sig_abs / 2 <= v[f] <= 2 * sig_abs + 0.03 * swing):
+            # the lower bound is taken against the noise actually realised on the samples the estimate is built
+            # from (the estimator's own central-window mask applied to the identically pre-processed noise-only
+            # record): with 64 slots only ~15 independent noise samples per level fall into the window, and a
+            # realisation whose local spread is below sigma/2 is reported truthfully by the estimator
+            rn = sg.resample(np.roll(noise, (-sps) // 2 + 1), op["nslots"] * 128)
+            for f, maskname in (("s0", "y_bot"), ("s1", "y_top")):
+                m = ~np.isnan(np.asarray(getattr(e, maskname)))
+                real = float(np.std(rn[m])) if m.sum() > 1 and m.size == rn.size else sig_abs
+                lo = min(sig_abs, real) / 2
+                if not (lo <= v[f] <= 2 * sig_abs + 0.03 * swing):
                     raise Violation("C17/sigma", f"{w}: {f}={v[f]:.4g} outside [sigma/2, 2 sigma + 3%(b-a)] = "
-                                                 f"[{sig_abs / 2:.4g}, {2 * sig_abs + 0.03 * swing:.4g}]",
+                                                 f"[{lo:.4g}, {2 * sig_abs + 0.03 * swing:.4g}] (sigma={sig_abs:.4g}, "
+                                                 f"realised on the {int(m.sum())} window samples: {real:.4g})",
                                     f"sigma/{self._ampclass(swing)}")
             if not (v["mu0"] < v["threshold"] < v["mu1"]):
                 raise Violation("C17/threshold", f"{w}: threshold {v['threshold']:.6g} not strictly between mu0="
